@@ -106,6 +106,17 @@ CLAIMED = {
             'contract from C03; two inputs per merge',
             'contract-based deductive verification: exceptional postconditions over ghost state, fault at every step',
             'DESIGN 2 C10'),
+    'C03': ('other',
+            'read(write(v)) = v is discharged by z3 for each of the six dimension cases (the arms of the match statements in '
+            '_write_to_nc_var / _read_from_nc_var, driven through the real _write_data) over a ghost NetCDF variable: values '
+            'equal, exactly the species that were present (none lost, none invented), only the addressed row written, unset '
+            'optional fields read back unset, missing required values refused; _create_dimensions gives the species dimension '
+            'exactly the data\'s species; _load_trajectory sizes the trajectory from any per-point field. One obligation is '
+            'open and recorded as a known finding (the species dimension is fixed by the first trajectory), hence level other.',
+            'netCDF4 variable model (fill value / empty vlen array for unwritten slots, bounds errors) and dtype fidelity by '
+            'assumption; the file species list ranges over representative lists (prefix, non-prefix, gap, single late, empty) x '
+            'all subsets for the value; thrust-mode maps in every rotation of insertion order; floats as reals',
+            'contract-based deductive verification: AST->z3 VCs of the real source over a ghost NetCDF variable', 'DESIGN 2 C03'),
 }
 REASONS_TODO = 'check not built yet (work in progress; see DESIGN.md section 2)'
 
